@@ -239,8 +239,10 @@ func (p *Parser) ParseInfixStringConcatExpression(left ast.Expression, explicit 
 }
 
 func (p *Parser) ParsePostfixExpression(left ast.Expression) (ast.Expression, error) {
+	// The expression starts where its left operand starts; work on a copy so that
+	// the "%" token itself (p.curToken, which later errors refer to) keeps its own position.
 	exp := &ast.PostfixExpression{
-		Meta: p.curToken,
+		Meta: p.curToken.Clone(),
 		Left: left,
 	}
 	exp.Operator = p.curToken.Token.Literal
